@@ -84,13 +84,20 @@ theorem IsPartition.sum_split {c q ni : ℕ} {im : Fin c → Fin ni} {inn : Fin 
   rw [← Function.Bijective.sum_comp h f, Fintype.sum_sum_type]
   rfl
 
+/-- the weaker form of `IsPartition` that the algebra needs: sums over the independent DOF split -/
+def SumSplit (K : Type) [Field K] {c q ni : ℕ} (im : Fin c → Fin ni) (inn : Fin q → Fin ni) : Prop :=
+  ∀ f : Fin ni → K, ∑ k, f k = ∑ j, f (im j) + ∑ j, f (inn j)
+
+theorem IsPartition.sumSplit {c q ni : ℕ} {im : Fin c → Fin ni} {inn : Fin q → Fin ni}
+    (h : IsPartition im inn) : SumSplit K im inn := fun f => h.sum_split f
+
 /-- a product over the independent DOF splits over the partition -/
-theorem IsPartition.mul_split {c q ni n s : ℕ} {im : Fin c → Fin ni} {inn : Fin q → Fin ni}
-    (h : IsPartition im inn) (R : Mx K n ni) (Z : Mx K ni s) :
+theorem SumSplit.mul_split {c q ni n s : ℕ} {im : Fin c → Fin ni} {inn : Fin q → Fin ni}
+    (h : SumSplit K im inn) (R : Mx K n ni) (Z : Mx K ni s) :
     toM R * toM Z = toM (R.selCols im) * toM (Z.selRows im) + toM (R.selCols inn) * toM (Z.selRows inn) := by
   funext i j
   simp only [Matrix.mul_apply, Matrix.add_apply, Mx.selCols, Mx.selRows]
-  exact h.sum_split fun k => R i k * Z k j
+  exact h fun k => R i k * Z k j
 
 theorem selRows_mul {n k m r : ℕ} (a : Mx K n k) (b : Mx K k m) (f : Fin r → Fin n) :
     toM (a.selRows f) * toM b = toM (Mx.selRows (toM a * toM b) f) := by
@@ -122,9 +129,9 @@ theorem rbe3Alg_mul_rb {m nd : ℕ} (solve : Solver K)
 /-- m-set inside the independent set: the new matrix gives the m-set motion from the motion of the
 dependent DOF and of the remaining independent DOF, whenever the old one gives the dependent motion
 from the independent motion -/
-theorem umIndep_spec {nd ni q s : ℕ} (solve : Solver K)
+theorem umIndep_spec' {nd ni q s : ℕ} (solve : Solver K)
     (hs : ExactSolve solve) (R : Mx K nd ni) (im : Fin nd → Fin ni) (inn : Fin q → Fin ni)
-    (hp : IsPartition im inn) (hRm : IsUnit (toM (R.selCols im)).det)
+    (hp : SumSplit K im inn) (hRm : IsUnit (toM (R.selCols im)).det)
     (Zi : Mx K ni s) (Zd : Mx K nd s) (h : toM R * toM Zi = toM Zd) :
     toM (umIndep solve R im inn).mx * toM (Mx.vstack Zd (Zi.selRows inn)) = toM (Zi.selRows im) := by
   apply left_cancel_of_isUnit hRm
@@ -139,9 +146,9 @@ theorem umIndep_spec {nd ni q s : ℕ} (solve : Solver K)
 
 /-- mixed m-set: rows `dm` of the dependent DOF and columns `im` of the independent DOF become
 dependent; `C = R[dn, im]` must be invertible -/
-theorem umMixed_spec {nd ni r c q s : ℕ} (solve : Solver K)
+theorem umMixed_spec' {nd ni r c q s : ℕ} (solve : Solver K)
     (hs : ExactSolve solve) (R : Mx K nd ni) (dm : Fin r → Fin nd) (dn : Fin c → Fin nd)
-    (im : Fin c → Fin ni) (inn : Fin q → Fin ni) (hp : IsPartition im inn)
+    (im : Fin c → Fin ni) (inn : Fin q → Fin ni) (hp : SumSplit K im inn)
     (hC : IsUnit (toM ((R.selRows dn).selCols im)).det)
     (Zi : Mx K ni s) (Zd : Mx K nd s) (h : toM R * toM Zi = toM Zd) :
     toM (umMixed solve R dm dn im inn).mx * toM (Mx.vstack (Zd.selRows dn) (Zi.selRows inn))
@@ -178,6 +185,22 @@ theorem umMixed_spec {nd ni r c q s : ℕ} (solve : Solver K)
           (Mx.hstack (Mx.zero : Mx K r c) ((R.selRows dm).selCols inn))) E := by
     simp only [umMixed, tab_mx, hE]
   rw [hY, vstack_mul, Mx.add_eq, Mx.mul_eq, hFZ, hEZ]
+
+theorem umIndep_spec {nd ni q s : ℕ} (solve : Solver K)
+    (hs : ExactSolve solve) (R : Mx K nd ni) (im : Fin nd → Fin ni) (inn : Fin q → Fin ni)
+    (hp : IsPartition im inn) (hRm : IsUnit (toM (R.selCols im)).det)
+    (Zi : Mx K ni s) (Zd : Mx K nd s) (h : toM R * toM Zi = toM Zd) :
+    toM (umIndep solve R im inn).mx * toM (Mx.vstack Zd (Zi.selRows inn)) = toM (Zi.selRows im) :=
+  umIndep_spec' solve hs R im inn hp.sumSplit hRm Zi Zd h
+
+theorem umMixed_spec {nd ni r c q s : ℕ} (solve : Solver K)
+    (hs : ExactSolve solve) (R : Mx K nd ni) (dm : Fin r → Fin nd) (dn : Fin c → Fin nd)
+    (im : Fin c → Fin ni) (inn : Fin q → Fin ni) (hp : IsPartition im inn)
+    (hC : IsUnit (toM ((R.selRows dn).selCols im)).det)
+    (Zi : Mx K ni s) (Zd : Mx K nd s) (h : toM R * toM Zi = toM Zd) :
+    toM (umMixed solve R dm dn im inn).mx * toM (Mx.vstack (Zd.selRows dn) (Zi.selRows inn))
+      = toM (Mx.vstack (Zd.selRows dm) (Zi.selRows im)) :=
+  umMixed_spec' solve hs R dm dn im inn hp.sumSplit hC Zi Zd h
 
 end field
 
@@ -392,53 +415,87 @@ theorem exInd_fullrank : Function.Injective (toM (indRows exInd V3.zero)).mulVec
 
 /-! ### the DOF bookkeeping of `UM_List` -/
 
-/-- if every index returned by `mat_intersect(hay, needles)` is 0 (Python: `not pv.any()`), a needle
-that occurs in `hay` is its first element -/
-theorem head_of_not_anyNonzero {hay needles : List Nat} (h : anyNonzero (positions hay needles) = false)
-    {k : Nat} (hk : k ∈ needles) (hh : k ∈ hay) : hay.head? = some k := by
-  obtain ⟨i, hi⟩ := Option.isSome_iff_exists.mp (List.isSome_idxOf?.mpr hh)
-  have hmem : i ∈ positions hay needles := by
-    simp only [positions, List.mem_filterMap]
-    exact ⟨k, hk, hi⟩
-  have hi0 : i = 0 := by
-    simp only [anyNonzero, List.any_eq_false] at h
-    have := h i hmem
-    simpa using this
-  subst hi0
-  obtain ⟨hlt, hget, -⟩ := List.idxOf?_eq_some_iff.mp hi
-  cases hay with
-  | nil => cases hh
-  | cons a t => simpa using hget
+theorem mem_positions {hay needles : List Nat} {i : Nat} :
+    i ∈ positions hay needles ↔ ∃ k ∈ needles, hay.idxOf? k = some i := by
+  simp only [positions, List.mem_filterMap]
 
-/-- **partial** (`formrbe3`, `UM_List`): when the first dependent DOF is not in the m-set, the branch
-"m-set inside the independent set" is taken only if that is the case -/
-theorem umPlan_indep_partial {ddof idof mdof : List Nat} {nuset : Nat} {p : UmPlan}
-    (hfirst : ∀ k, ddof.head? = some k → k ∉ mdof)
+/-- `mat_intersect(hay, needles)` is empty exactly when no needle occurs in `hay` -/
+theorem positions_isEmpty {hay needles : List Nat} :
+    (positions hay needles).isEmpty = true ↔ ∀ k ∈ needles, k ∉ hay := by
+  rw [List.isEmpty_iff]
+  constructor
+  · intro h k hk hh
+    obtain ⟨i, hi⟩ := Option.isSome_iff_exists.mp (List.isSome_idxOf?.mpr hh)
+    have : i ∈ positions hay needles := mem_positions.mpr ⟨k, hk, hi⟩
+    rw [h] at this; cases this
+  · intro h
+    apply List.eq_nil_iff_forall_not_mem.mpr
+    intro i hi
+    obtain ⟨k, hk, hki⟩ := mem_positions.mp hi
+    exact h k hk (List.isSome_idxOf?.mp (by rw [hki]; rfl))
+
+/-- which branch `formrbe3` takes for a `UM_List`, and what the index lists of that branch are -/
+theorem umPlan_spec {ddof idof mdof : List Nat} {nuset : Nat} {p : UmPlan}
+    (h : umPlan ddof idof mdof nuset = some p) :
+    (p.branch = .indep ↔ ∀ k ∈ mdof, k ∉ ddof) ∧
+    (p.branch = .dep ↔ (∃ k ∈ mdof, k ∈ ddof) ∧ ∀ k ∈ mdof, k ∉ idof) ∧
+    (p.branch = .mixed ↔ (∃ k ∈ mdof, k ∈ ddof) ∧ ∃ k ∈ mdof, k ∈ idof) := by
+  unfold umPlan at h
+  simp only [] at h
+  by_cases hd : (positions ddof mdof).isEmpty = true
+  · have hd' := positions_isEmpty.mp hd
+    simp only [hd, if_true] at h
+    split at h
+    · simp only [Option.some.injEq] at h; subst h
+      refine ⟨⟨fun _ => hd', fun _ => rfl⟩, ⟨fun hb => (by cases hb), fun hb => ?_⟩, ⟨fun hb => (by cases hb), fun hb => ?_⟩⟩
+      · obtain ⟨⟨k, hk, hkd⟩, _⟩ := hb; exact absurd hkd (hd' k hk)
+      · obtain ⟨⟨k, hk, hkd⟩, _⟩ := hb; exact absurd hkd (hd' k hk)
+    · cases h
+  · have hd' : ∃ k ∈ mdof, k ∈ ddof := by
+      by_contra hc
+      exact hd (positions_isEmpty.mpr (by intro k hk hkd; exact hc ⟨k, hk, hkd⟩))
+    have hnot : ¬ ∀ k ∈ mdof, k ∉ ddof := by
+      intro hc; obtain ⟨k, hk, hkd⟩ := hd'; exact hc k hk hkd
+    simp only [hd, Bool.false_eq_true, if_false] at h
+    by_cases hi : (positions idof mdof).isEmpty = true
+    · have hi' := positions_isEmpty.mp hi
+      simp only [hi, if_true, Option.some.injEq] at h; subst h
+      refine ⟨⟨fun hb => (by cases hb), fun hb => absurd hb hnot⟩, ⟨fun _ => ⟨hd', hi'⟩, fun _ => rfl⟩,
+        ⟨fun hb => (by cases hb), fun hb => ?_⟩⟩
+      obtain ⟨_, k, hk, hki⟩ := hb; exact absurd hki (hi' k hk)
+    · have hi' : ∃ k ∈ mdof, k ∈ idof := by
+        by_contra hc
+        exact hi (positions_isEmpty.mpr (by intro k hk hkd; exact hc ⟨k, hk, hkd⟩))
+      simp only [hi, Bool.false_eq_true, if_false, Option.some.injEq] at h; subst h
+      refine ⟨⟨fun hb => (by cases hb), fun hb => absurd hb hnot⟩, ⟨fun hb => (by cases hb), fun hb => ?_⟩,
+        ⟨fun _ => ⟨hd', hi'⟩, fun _ => rfl⟩⟩
+      obtain ⟨_, hall⟩ := hb; obtain ⟨k, hk, hki⟩ := hi'; exact absurd hki (hall k hk)
+
+/-- the branch "m-set inside the independent set" is taken exactly when no m-set DOF is a dependent DOF;
+all m-set DOF are then independent DOF (else the code raises) -/
+theorem umPlan_indep {ddof idof mdof : List Nat} {nuset : Nat} {p : UmPlan}
     (h : umPlan ddof idof mdof nuset = some p) (hb : p.branch = .indep) :
     (∀ k ∈ mdof, k ∉ ddof ∧ k ∈ idof) ∧ p.im = positions idof mdof
       ∧ p.inn = complIdx (positions idof mdof) idof.length := by
+  have hnd := (umPlan_spec h).1.mp hb
   unfold umPlan at h
   simp only [] at h
   split at h
-  · rename_i hd
-    split at h
+  · split at h
     · rename_i hall
       simp only [Option.some.injEq] at h
       subst h
-      refine ⟨fun k hk => ⟨fun hkd => ?_, ?_⟩, rfl, rfl⟩
-      · have := head_of_not_anyNonzero (by simpa using hd) hk hkd
-        exact hfirst k this hk
-      · have := List.all_eq_true.mp hall k hk
-        simpa using this
+      refine ⟨fun k hk => ⟨hnd k hk, ?_⟩, rfl, rfl⟩
+      have := List.all_eq_true.mp hall k hk
+      simpa using this
     · cases h
   · split at h <;> (simp only [Option.some.injEq] at h; subst h; cases hb)
 
-/-- **partial**: when the first independent DOF is not in the m-set, the branch "m-set = dependent
-set" is taken only if no independent DOF is in the m-set -/
-theorem umPlan_dep_partial {ddof idof mdof : List Nat} {nuset : Nat} {p : UmPlan}
-    (hfirst : ∀ k, idof.head? = some k → k ∉ mdof)
+/-- the branch "m-set = dependent DOF" is taken exactly when no m-set DOF is an independent DOF -/
+theorem umPlan_dep {ddof idof mdof : List Nat} {nuset : Nat} {p : UmPlan}
     (h : umPlan ddof idof mdof nuset = some p) (hb : p.branch = .dep) :
     (∀ k ∈ mdof, k ∉ idof) ∧ p.dm = positions ddof mdof := by
+  have hni := ((umPlan_spec h).2.1.mp hb).2
   unfold umPlan at h
   simp only [] at h
   split at h
@@ -446,27 +503,7 @@ theorem umPlan_dep_partial {ddof idof mdof : List Nat} {nuset : Nat} {p : UmPlan
     · simp only [Option.some.injEq] at h; subst h; cases hb
     · cases h
   · split at h
-    · rename_i hi
-      simp only [Option.some.injEq] at h
-      subst h
-      refine ⟨fun k hk hki => ?_, rfl⟩
-      have := head_of_not_anyNonzero (by simpa using hi) hk hki
-      exact hfirst k this hk
+    · simp only [Option.some.injEq] at h; subst h; exact ⟨hni, rfl⟩
     · simp only [Option.some.injEq] at h; subst h; cases hb
-
-/-- the hypothesis of `umPlan_dep_partial` is necessary: dependent DOF = uset rows 24–29, independent
-DOF = rows 0,1,2, 6,7,8, 12,13,14, 18,19,20, m-set = row 0 (the first independent DOF) and five
-dependent DOF: the code takes the "m-set = dependent set" branch and returns 5 rows for 6 m-set DOF -/
-theorem umPlan_dep_counterexample :
-    (umPlan [24, 25, 26, 27, 28, 29] [0, 1, 2, 6, 7, 8, 12, 13, 14, 18, 19, 20]
-      [0, 24, 25, 26, 27, 28] 30).map (fun p => (p.branch, p.dm)) = some (.dep, [0, 1, 2, 3, 4]) := by
-  decide
-
-/-- the hypothesis of `umPlan_indep_partial` is necessary: m-set = five independent DOF and the first
-dependent DOF: the code takes the "inside the independent set" branch and raises -/
-theorem umPlan_indep_counterexample :
-    umPlan [24, 25, 26, 27, 28, 29] [0, 1, 2, 6, 7, 8, 12, 13, 14, 18, 19, 20]
-      [1, 2, 6, 8, 13, 24] 30 = none := by
-  decide
 
 end PyYetiVerif.Coord
